@@ -702,3 +702,79 @@ pub fn choices_s(n: usize) -> BoxedStrategy<Vec<u8>> {
     ]
     .boxed()
 }
+
+// ------------------------------------------------------------------ (de)serialisation
+
+fn leak(s: &str) -> &'static str {
+    Box::leak(s.to_string().into_boxed_str())
+}
+
+pub fn opd_to_json(o: &Opd) -> Value {
+    match o {
+        Opd::R8(r) => json!({"t":"r8","v":r.name()}),
+        Opd::R16(r) => json!({"t":"r16","v":r.name()}),
+        Opd::Sr(s) => json!({"t":"sr","v":s.name()}),
+        Opd::Imm(v, k) => json!({"t":"imm","v":v,"k":format!("{:?}", k)}),
+        Opd::Mem(w, m) => {
+            let (sh, a, b, d): (&str, &str, &str, Value) = match m.shape {
+                Shape::Direct(n) => ("direct", "", "", json!(n)),
+                Shape::Ind(r) => ("ind", r.name(), "", Value::Null),
+                Shape::Based(r, d) => ("based", r.name(), "", json!(d)),
+                Shape::Indexed(r, d) => ("indexed", r.name(), "", json!(d)),
+                Shape::BasedIdx(b, i, d) => ("basedidx", b.name(), i.name(), match d { Some(d) => json!(d), None => Value::Null }),
+            };
+            json!({"t":"mem","w":w.kw(),"seg":m.seg.map(|s| s.name()),"shape":sh,"a":a,"b":b,"d":d})
+        }
+        Opd::Lab(w, n) => json!({"t":"lab","w":w.kw(),"v":n}),
+        Opd::Name(n) => json!({"t":"name","v":n}),
+        Opd::Wd(w) => json!({"t":"wd","w":w.kw()}),
+    }
+}
+
+fn r16_by_name(n: &str) -> R16 {
+    R16S.iter().copied().find(|r| r.name() == n).unwrap_or(R16::AX)
+}
+fn w_by_name(n: &str) -> W {
+    if n == "byte" { W::B } else { W::W }
+}
+
+pub fn opd_from_json(v: &Value) -> Opd {
+    let t = v["t"].as_str().unwrap_or("");
+    let s = |k: &str| v[k].as_str().unwrap_or("").to_string();
+    match t {
+        "r8" => Opd::R8(R8S.iter().copied().find(|r| r.name() == s("v")).unwrap_or(R8::AL)),
+        "r16" => Opd::R16(r16_by_name(&s("v"))),
+        "sr" => Opd::Sr(SEGS.iter().copied().find(|x| x.name() == s("v")).unwrap_or(Seg::DS)),
+        "imm" => {
+            let k = match s("k").as_str() { "SB" => ImmKind::SB, "SW" => ImmKind::SW, "UB" => ImmKind::UB, _ => ImmKind::UW };
+            Opd::Imm(v["v"].as_u64().unwrap_or(0) as u16, k)
+        }
+        "mem" => {
+            let seg = v["seg"].as_str().and_then(|n| SEGS.iter().copied().find(|x| x.name() == n));
+            let d = v["d"].as_i64();
+            let shape = match s("shape").as_str() {
+                "direct" => Shape::Direct(d.unwrap_or(0) as u16),
+                "ind" => Shape::Ind(r16_by_name(&s("a"))),
+                "based" => Shape::Based(r16_by_name(&s("a")), d.unwrap_or(0) as i32),
+                "indexed" => Shape::Indexed(r16_by_name(&s("a")), d.unwrap_or(0) as i32),
+                _ => Shape::BasedIdx(r16_by_name(&s("a")), r16_by_name(&s("b")), d.map(|x| x as i32)),
+            };
+            Opd::Mem(w_by_name(&s("w")), Mem { seg, shape })
+        }
+        "lab" => Opd::Lab(w_by_name(&s("w")), s("v")),
+        "name" => Opd::Name(s("v")),
+        _ => Opd::Wd(w_by_name(&s("w"))),
+    }
+}
+
+pub fn insn_to_json(i: &Insn) -> Value {
+    json!({"prefix": i.prefix, "mn": i.mn, "ops": i.ops.iter().map(opd_to_json).collect::<Vec<_>>(), "text": canonical(i)})
+}
+
+pub fn insn_from_json(v: &Value) -> Insn {
+    Insn {
+        prefix: v["prefix"].as_str().map(leak),
+        mn: leak(v["mn"].as_str().unwrap_or("nop")),
+        ops: v["ops"].as_array().map(|a| a.iter().map(opd_from_json).collect()).unwrap_or_default(),
+    }
+}
